@@ -50,6 +50,39 @@ def parseMethod (s : Sexp) : Option (Method × MethodSpec) :=
     some (⟨name, doc.toList, params⟩, ⟨name, verb, path.toList, alias, params⟩)
   | _ => none
 
+/-- `(g (a b …) kind ptr|val)`: one entry of the parameter list as written (`a, b T`) -/
+def parseGroup : Sexp → Option ParamGroup
+  | .list [.atom "g", .list ns, k, .atom p] => do
+    let names ← ns.mapM strArg
+    let kind ← parseKind k
+    some ⟨names, kind, p == "ptr"⟩
+  | _ => none
+
+def parseResType : String → Option ResType
+  | "star" => some .star | "slice" => some .slice | "map" => some .map | "resp" => some .httpResp
+  | "err" => some .error | "other" => some .other | _ => none
+
+/-- `(n ty)`: one entry of the result list: number of names, type class -/
+def parseRes : Sexp → Option ResGroup
+  | .list [n, .atom t] => do some ⟨← n.asNat?, ← parseResType t⟩
+  | _ => none
+
+/-- one `(m …)` form as an entry of the interface type: `(groups (g …)…)` (default: one group per parameter of `(params …)`),
+    `(results (n ty)…)` (default `(*http.Response, error)`) -/
+def parseMethodEntry (s : Sexp) : Option Entry :=
+  match s with
+  | .list (.atom "m" :: .atom name :: _) => do
+    let doc ← (s.field? "doc").bind (fun f => f.args.head?.bind strArg)
+    let params ← ((s.field? "params").map (·.args)).getD [] |>.mapM parseParam
+    let groups ← match s.field? "groups" with
+      | some f => f.args.mapM parseGroup
+      | none => some (params.map (fun p => ⟨[p.name], p.kind, p.ptr⟩))
+    let results ← match s.field? "results" with
+      | some f => f.args.mapM parseRes
+      | none => some [⟨0, .httpResp⟩, ⟨0, .error⟩]
+    some (.method name (some doc.toList) groups results)
+  | _ => none
+
 def parseVal : Sexp → Option Val
   | .atom "nil" => some .nilPtr
   | .list [.atom "s", .atom t] => some (.txt t.toList)
@@ -124,11 +157,20 @@ def parseIface (p : Sexp) : Option (Iface × IfaceSpec) :=
   | some hs, some ms => some (⟨hdoc.toList, ms.map (·.1)⟩, ⟨hs, ms.map (·.2)⟩)
   | _, _ => none
 
-/-- `(rest-iface (hdoc "…") (headers (k v)…) (methods (m …)…) (calls (c …)…))` -/
+/-- the entries of the interface type: the methods in order, the embedded shoot.RestClient[T] (with the doc text `hdoc`, if
+    any) after the first `(embedpos k)` of them -/
+def parseEntries (p : Sexp) : Option (List Entry) :=
+  let hdoc := ((p.field? "hdoc").bind (fun f => f.args.head?.bind strArg)).getD ""
+  let pos := ((p.field? "embedpos").bind (fun f => f.args.head?.bind Sexp.asNat?)).getD 0
+  match ((p.field? "methods").map (·.args)).getD [] |>.mapM RestD.parseMethodEntry with
+  | some ms => some (ms.take pos ++ Entry.embed (if hdoc == "" then none else some hdoc.toList) :: ms.drop pos)
+  | none => none
+
+/-- `(rest-iface (hdoc "…") (embedpos k) (headers (k v)…) (methods (m …)…) (calls (c …)…))` -/
 def restIfaceCase (id : String) (payload : List Sexp) : List String :=
   let p := Sexp.list (.atom "p" :: payload)
-  match parseIface p, ((p.field? "calls").map (·.args)).getD [] |>.mapM parseCall with
-  | some (iface, ispec), some calls =>
+  match parseIface p, ((p.field? "calls").map (·.args)).getD [] |>.mapM parseCall, parseEntries p with
+  | some (iface, ispec), some calls, some entries =>
     let idx := calls.zipIdx
     let reg := region ispec calls
     -- a rejected directive (two parameters with one alias): diagnosed failure, nothing generated
@@ -138,7 +180,8 @@ def restIfaceCase (id : String) (payload : List Sexp) : List String :=
         | some m => showRequest s!"c{k}." (specRequest ispec m c.args)
         | none => [(s!"c{k}.out", "no-such-method")])).flatten)
       ++ showIntended ispec
-    let modelLines := (match generate iface with
+    -- the model walks the ENTRIES of the interface type (embedded entry where it stands, parameter groups, result lists)
+    let modelLines := (match generateAst entries with
       | .fatal => [("gen", "fatal")]
       | .ok _ false => [("gen", "nocompile")]
       | .ok plans true => [("gen", "ok")] ++ (idx.map (fun (c, k) =>
@@ -147,7 +190,7 @@ def restIfaceCase (id : String) (payload : List Sexp) : List String :=
           | none => [(s!"c{k}.out", "no-such-method")])).flatten)
       ++ showParsed iface
     both id modelLines specLines reg
-  | _, _ => err id "bad-rest-iface-case"
+  | _, _, _ => err id "bad-rest-iface-case"
 
 /-- C01 leg of the rest area: `(c01rest (i (hdoc …) (headers …) (methods …)) …)` — the interfaces one
     `shoot rest` run generates. Property C01: the run exits 0 and what it wrote compiles with the
